@@ -541,6 +541,12 @@ func (a *avsRun) submission(t *avsTask, outsider *avsOp) {
 		case 1:
 			variant = "phase-one-carrying-a-response"
 			info.TaskResponse = resp
+		case 2:
+			if r.Intn(2) == 0 {
+				variant = "phase-one-with-empty-signature"
+				info.BlsSignature = []byte{}
+				sigValid = false
+			}
 		}
 	}
 	st := w.CosmosStep("task_result", op.o.Acct, sim.CosmosTxOpts{}, map[string]string{"task": fmt.Sprintf("%s/%d", t.addr, t.id), "stage": stage, "variant": variant, "operator": op.o.Acct.Name},
